@@ -280,3 +280,23 @@ func bankSend(from, to sdk.AccAddress, amt sdk.Coins) sdk.Msg {
 }
 
 func sortStrings(xs []string) { sort.Strings(xs) }
+
+// ProveHonestUpper is ProveHonest with the prover spelling its own address in upper case (valid bech32, same signer).
+func (s *SW) ProveHonestUpper(prover int, w *WFile) ProofResult {
+	up := strings.ToUpper(s.acc(prover).Bech)
+	idx, _ := s.Challenge(up, w)
+	if idx < 0 || idx >= w.F.NChunks() {
+		return ProofResult{Idx: idx, ErrMsg: "challenged chunk does not exist"}
+	}
+	item, hl := w.F.Proof(idx)
+	r := s.c.DeliverAs(prover, &storagetypes.MsgPostProof{Creator: up, Item: item, HashList: hl, Merkle: w.F.Root(), Owner: w.OwnerAddr, Start: w.Start, ToProve: idx})
+	pr := ProofResult{Tx: r, Idx: idx}
+	if r.OK() {
+		var resp storagetypes.MsgPostProofResponse
+		if err := r.MsgResponse(0, &resp); err == nil {
+			pr.Success = resp.Success
+			pr.ErrMsg = resp.ErrorMessage
+		}
+	}
+	return pr
+}
